@@ -1829,7 +1829,14 @@ class SpaceUpdater(SharedSpaceOperations):
             self._graph.remove_edge(b, node)
 
         # Re-derive the space and its sub spaces, bases first
-        for v in self._graph.ordered_subs(node):
+        affected = list(self._graph.ordered_subs(node))
+
+        # Reject the removal before anything is re-derived
+        # if a sub space is left without a linearisation
+        for v in affected:
+            self._graph.get_mro(v)
+
+        for v in affected:
             self._instructions.append(
                 Instruction(self._update_derived_space, (v,))
             )
